@@ -181,6 +181,9 @@ func (r *FnRun) sortOf(t types.Type) Sort {
 	case *types.Pointer, *types.Interface, *types.Signature, *types.Map, *types.Chan:
 		return SInt
 	case *types.Array:
+		if u.Len() == 0 {
+			return SInt // zero-length marker arrays ([0]sync.Mutex "DoNotCopy"): no content
+		}
 		return SArr(r.idxSort(), r.sortOf(u.Elem()))
 	}
 	unsup("no single-term representation for type %s", t)
@@ -212,7 +215,7 @@ func isScalarType(t types.Type) bool {
 	case *types.Struct, *types.Slice, *types.Tuple:
 		return false
 	case *types.Array:
-		return isScalarType(u.Elem())
+		return u.Len() == 0 || isScalarType(u.Elem())
 	}
 	return true
 }
@@ -251,6 +254,9 @@ func (r *FnRun) zeroVal(t types.Type) Val {
 	case *types.Signature:
 		return ClosureVal{T: IntLit(0)}
 	case *types.Array:
+		if u.Len() == 0 {
+			return IntLit(0)
+		}
 		es := r.sortOf(u.Elem())
 		return Term{fmt.Sprintf("((as const %s) %s)", SArr(r.idxSort(), es), r.zeroTerm(u.Elem()).S), SArr(r.idxSort(), es)}
 	}
